@@ -30,7 +30,7 @@ TECHNIQUE = ('deterministic simulation: twin continuations from a forked '
              'per mutation), sqlite3 snapshots and stored-signature '
              'comparison, in-child probes')
 PLAN = {
-    'quick': {'count': 220, 'max_wall': 170, 'shrink_budget': 25,
+    'quick': {'count': 320, 'max_wall': 170, 'shrink_budget': 25,
               'shrink_wall': 150},
     'thorough': {'count': 4000, 'max_wall': 1700, 'shrink_budget': 60,
                  'shrink_wall': 400},
